@@ -102,6 +102,7 @@ type fcgiRig struct {
 	prefix      string
 	split       string
 	ext         string
+	ext2        string // extension of the second rule, if there is one
 	envs        [][2]string
 	port        int
 	started     bool
@@ -394,7 +395,7 @@ func runFcgi(mode string) sim.RigFunc {
 		defer os.RemoveAll(tmp)
 		r.root = filepath.Join(tmp, "root")
 		os.MkdirAll(filepath.Join(r.root, "app", "dir"), 0755)
-		files := map[string]string{"app/x.php": "STATIC-TOKEN-x", "app/Y.PHP": "STATIC-TOKEN-Y", "app/index.php": "STATIC-TOKEN-index", "app/dir/index.php": "STATIC-TOKEN-dirindex", "app/s.txt": "PLAIN-TEXT-s", "app/tool.cgi": "STATIC-TOKEN-tool"}
+		files := map[string]string{"app/x.php": "STATIC-TOKEN-x", "app/Y.PHP": "STATIC-TOKEN-Y", "app/index.php": "STATIC-TOKEN-index", "app/dir/index.php": "STATIC-TOKEN-dirindex", "app/s.txt": "PLAIN-TEXT-s", "app/tool.cgi": "STATIC-TOKEN-tool", "app/tool.tpl.cgi": "STATIC-TOKEN-tooltpl"}
 		for n, content := range files {
 			os.WriteFile(filepath.Join(r.root, n), []byte(content), 0644)
 		}
@@ -413,7 +414,7 @@ func runFcgi(mode string) sim.RigFunc {
 			fmt.Fprintf(&b, "\tlimits {\n\t\tbody /app %d\n\t}\n", r.limit)
 		}
 		c.Params["body_limit"] = r.limit
-		b.WriteString("\tfastcgi /app 10.8.0.1:9000 {\n\t\text .php\n\t\tsplit .php\n\t\tindex index.php\n\t\tenv APP_ENV prod\n\t\tenv REQ_HOST {host}\n")
+		b.WriteString("\tfastcgi /app 10.8.0.1:9000 {\n\t\text .php\n\t\tsplit .php\n\t\tindex index.php\n\t\tenv APP_ENV prod\n\t\tenv REQ_HOST {host}\n\t\tenv RULE_ONE yes\n")
 		r.readTimeout = 60 * time.Second
 		if st.Draw(3) == 0 && mode == "C19" {
 			b.WriteString("\t\tread_timeout 5s\n")
@@ -424,7 +425,14 @@ func runFcgi(mode string) sim.RigFunc {
 		r.twoRules = st.Draw(2) == 0
 		if r.twoRules {
 			// a second rule on the same base path, for another kind of script
-			b.WriteString("\tfastcgi /app 10.8.0.1:9000 {\n\t\text .cgi\n\t\tsplit .cgi\n\t\tenv APP_ENV prod\n\t\tenv REQ_HOST {host}\n\t}\n")
+			// (an extension is any suffix of the file name: it may have two dots, or be written without one)
+			r.ext2 = []string{".cgi", ".cgi", ".tpl.cgi", "cgi"}[st.Draw(4)]
+			split2 := r.ext2
+			if r.ext2 == "cgi" {
+				split2 = ".cgi"
+			}
+			fmt.Fprintf(&b, "\tfastcgi /app 10.8.0.1:9000 {\n\t\text %s\n\t\tsplit %s\n\t\tenv APP_ENV prod\n\t\tenv REQ_HOST {host}\n\t\tenv RULE_TWO yes\n\t}\n", r.ext2, split2)
+			c.Params["second_rule_ext"] = r.ext2
 		}
 		r.catchAll = mode == "C19" && r.prefix == "" && st.Draw(2) == 0
 		if r.catchAll {
@@ -480,7 +488,7 @@ func runFcgi(mode string) sim.RigFunc {
 				return false
 			}
 			for _, q := range r.reqs {
-				if !q.cl.done {
+				if !q.cl.done && !q.cl.aborted {
 					return false
 				}
 			}
@@ -489,7 +497,7 @@ func runFcgi(mode string) sim.RigFunc {
 		c.Loop(4, allDone)
 		if !c.Drain(1500, time.Second, allDone) {
 			for _, q := range r.reqs {
-				if !q.cl.done {
+				if !q.cl.done && !q.cl.aborted {
 					c.Violate(mode+"/liveness", "request-not-answered", "request %d (%s %s) not answered within the drain budget; parked=%v", q.id, q.method, q.path, c.ParkedKeys())
 				}
 			}
@@ -533,6 +541,10 @@ func (r *fcgiRig) addReq(i int) {
 	p := fcgiPaths[st.Draw(len(fcgiPaths))]
 	if r.twoRules && st.Draw(3) == 0 {
 		p = fcgiPaths2[st.Draw(len(fcgiPaths2))]
+		if r.ext2 == ".tpl.cgi" {
+			p.path = strings.NewReplacer("tool.cgi", "tool.tpl.cgi", "TOOL.CGI", "TOOL.TPL.CGI").Replace(p.path)
+			p.script = strings.Replace(p.script, "tool.cgi", "tool.tpl.cgi", 1)
+		}
 		r.c.Probe("script-of-the-second-matching-rule")
 	}
 	q.path, q.scriptName, q.pathInfo = p.path, p.script, p.info
@@ -683,6 +695,10 @@ func (r *fcgiRig) addReq(i int) {
 		all = append(all, q.body...)
 	}
 	q.cl = &hclient{id: i, w: r.w, ip: "127.0.0.1", segs: cutBytes(st, all, st.Draw(3)), methods: []string{q.method}}
+	if r.mode == "C13" && !q.chunked && len(q.body) > 0 && len(q.cl.segs) > 1 && sc.hostile == "" && st.Draw(8) == 0 {
+		// the client closes its connection instead of sending the last piece of its body
+		q.cl.abortAt, q.cl.abortFin = len(q.cl.segs)-1, true
+	}
 	r.reqs = append(r.reqs, q)
 }
 
@@ -743,6 +759,16 @@ func (r *fcgiRig) judge() {
 		c.Violate("C19/panic", "fastcgi/"+kind, "a FastCGI response made request handling panic: %s", trunc(line, 300))
 	}
 	for _, q := range r.reqs {
+		if q.cl.aborted {
+			// the client went away (a regular close) before its announced body was complete: whatever
+			// casket does with the request, the responder must not be run on the piece that arrived
+			// as if it were the whole upload
+			if p := q.peer; p != nil && p.stdinDone && len(p.stdin) < len(q.body) {
+				c.Violate("C13/truncated-upload-passed-as-complete", fmt.Sprintf("method=%s", q.method), "request %d (%s %s, Content-Length %d): the client closed its connection after part of the body; the responder received %d stdin bytes followed by a regular end of stdin", q.id, q.method, q.path, len(q.body), len(p.stdin))
+			}
+			c.Probe("client-closed-mid-upload-judged")
+			continue
+		}
 		if !q.cl.done {
 			continue
 		}
@@ -840,6 +866,29 @@ func (r *fcgiRig) judge() {
 					cls = "CONTENT_LENGTH/chunked-request-body"
 				}
 				c.Violate("C13/param-wrong", cls, "request %d (%s %s): CGI variable %s: got %s (present=%v), want %s", q.id, q.method, q.path, k, short(got), ok, short(want[k]))
+			}
+		}
+		// ... and nothing that is not derived from this request and its rule
+		var gotKeys []string
+		for k := range p.params {
+			gotKeys = append(gotKeys, k)
+		}
+		sort.Strings(gotKeys)
+		for _, k := range gotKeys {
+			_, wanted := want[k]
+			switch {
+			case strings.HasPrefix(k, "HTTP_") && !wanted && k != "HTTP_CONTENT_TYPE" && k != "HTTP_CONTENT_LENGTH" && k != "HTTP_CONNECTION" && k != "HTTP_TRANSFER_ENCODING":
+				cls := k
+				if strings.HasPrefix(k, "HTTP_X_H") {
+					cls = "HTTP_*"
+				}
+				c.Violate("C13/param-unexpected", cls, "request %d (%s %s): the responder received CGI variable %s=%s, but the request has no such header", q.id, q.method, q.path, k, short(p.params[k]))
+			case k == "PATH_TRANSLATED" && q.scriptName != "" && q.pathInfo == "":
+				c.Violate("C13/param-unexpected", k, "request %d (%s %s): the responder received PATH_TRANSLATED=%s for a request without path info", q.id, q.method, q.path, short(p.params[k]))
+			case (k == "RULE_ONE" || k == "RULE_TWO") && q.scriptName != "" && (k == "RULE_TWO") != strings.HasSuffix(q.scriptName, "cgi"):
+				c.Violate("C13/param-unexpected", k, "request %d (%s %s): the responder received %s, an env entry of the other fastcgi rule", q.id, q.method, q.path, k)
+			case (k == "HTTPS" || strings.HasPrefix(k, "SSL_")):
+				c.Violate("C13/param-unexpected", k, "request %d (%s %s): the responder received %s=%s for a plain HTTP request", q.id, q.method, q.path, k, short(p.params[k]))
 			}
 		}
 		if !bytes.Equal(p.stdin, q.body) {
